@@ -4,11 +4,13 @@ from harness.common.rng import Rng
 from harness.common import sim
 
 PROP = "C56"
-LEAN_MODULES = ["LunaVerif.Props.C56", "LunaVerif.Props.C56Stream", "LunaVerif.Props.C56Spi"]
+LEAN_MODULES = ["LunaVerif.Props.C56", "LunaVerif.Props.C56Stream", "LunaVerif.Props.C56Spi",
+                "LunaVerif.Lemmas.C56StreamAny", "LunaVerif.Props.C56Uart"]
 DRIVER = "Driver/C56.lean"
 REQUIRED_THEOREMS = ["captures_depth_consecutive_samples", "readback_nth", "trigger_during_capture_ignored",
                      "pretrigger_delay", "stream_readout_exact", "stream_readout_complete",
-                     "stream_readout_returns_idle", "spi_readout_words"]
+                     "stream_readout_returns_idle", "spi_readout_words", "stream_readout_any", "uart_readout_exact",
+                     "uart_readout_complete", "uart_readout_decoded", "decode_wave", "mb_line", "mb_bytes"]
 RULE = ("cases = (sample_depth in {1,2,5,32,100} (+3,4,7,8,16,33 thorough), samples_pretrigger 0..3, domain sync/usb, "
         "three captured signals of 1+8+5 bits) x pattern: triggers sparse / held high / bursts / random incl. during "
         "capture; inputs random every cycle or a counter; captured_sample_number sweeps and random reads, also while "
@@ -33,14 +35,23 @@ ASSUMPTIONS = ["sample_depth >= 1", "captured_sample_number < sample_depth (addr
                "does not forward cs_idles_high), no trigger from the end of the capture to the end of the window, chip "
                "select low for at least 4 cycles before the window",
                "stream_readout_exact: the trigger is seen in a wrapper-idle state (WIdle: holds at reset, is kept by idle "
-               "cycles and re-established by every read-out: init_WIdle, idle_step, stream_readout_returns_idle)"]
+               "cycles and re-established by every read-out: init_WIdle, idle_step, stream_readout_returns_idle)",
+               "stream_readout_any / uart_readout_exact: after the hand-over cycle no NEW capture is started within the "
+               "history considered (noRetrigger: trigger low in the cycles in which the wrapper FSM is IDLE; triggers "
+               "during capture and read-out are allowed, they are blocked by the wrapper); divisor >= 1, bytes_per_sample >= 1",
+               "uart_readout_complete / uart_readout_decoded: the transmitter is quiescent at the start, and the history is "
+               "long enough that at its end the wrapper is idle again and the transmitter quiescent (no bound on the "
+               "length of the read-out is proved; the monitor checks on the real gateware that a trigger-free tail of "
+               "one read-out time suffices)"]
 PARTIAL = ("the IntegratedLogicAnalyzer core, the StreamILA read-out (same clock domain) and the SyncSerialILA read-out "
            "are modelled, co-simulated and proved; for SyncSerialILA the theorem (spi_readout_words) says which word "
            "the SPI interface loads into its transmit register for each word of a chip-select window (recorded sample k "
            "for word k); that the transmit register is shifted out MSB first on sdo is C50's theorem about the same "
            "SpiDevice.step function, the two are not combined into one bit-level statement (the monitor checks the "
-           "bit-level view on the real gateware). AsyncSerialILA (UART read-out = StreamILA + UARTMultibyteTransmitter) "
-           "and StreamILA's optional AsyncFIFO to another o_domain are not covered")
+           "bit-level view on the real gateware). AsyncSerialILA (UART read-out) is modelled, co-simulated and proved "
+           "down to the tx waveform (uart_readout_exact / _complete / _decoded); not proved there: an upper bound on the "
+           "duration of the read-out (the complete statement assumes a history at whose end wrapper and transmitter are "
+           "idle again). StreamILA's optional AsyncFIFO to another o_domain is not covered")
 
 WIDTHS = [1, 8, 5]
 TOTAL = sum(WIDTHS)
